@@ -176,8 +176,9 @@ func kbuf(r *RNG, rows int) ([]byte, int) {
 	return b, 5*kBPS + 8 + r.Intn(9)
 }
 
-var coefClasses = []string{"zero", "dc", "dc-tie", "ac3", "sparse", "full-small", "full-2048", "extreme", "sat", "hi-dc",
-	"wide-rand", "wide-extreme", "wide-pair"}
+// in-range classes keep |coeff| <= 2047 (inRangeCoeff); the wide-* classes leave it
+var coefClasses = []string{"zero", "dc", "dc-tie", "ac3", "sparse", "full-small", "full-2047", "extreme", "sat", "hi-dc", "sep-2047",
+	"wide-rand", "wide-extreme", "wide-pair", "wide-2048"}
 
 func isWideCoef(c string) bool { return strings.HasPrefix(c, "wide") }
 
@@ -189,11 +190,11 @@ func genCoef(r *RNG, class string, c []int16) {
 	}
 	switch class {
 	case "dc":
-		c[0] = int16(rnd(r, -2048, 2048))
+		c[0] = int16(rnd(r, -2047, 2047))
 	case "dc-tie":
 		c[0] = int16(8*rnd(r, -40, 40) + []int{-5, -4, -3, 3, 4, 5}[r.Intn(6)])
 	case "ac3":
-		c[0], c[1], c[4] = int16(rnd(r, -2048, 2048)), int16(rnd(r, -2048, 2048)), int16(rnd(r, -2048, 2048))
+		c[0], c[1], c[4] = int16(rnd(r, -2047, 2047)), int16(rnd(r, -2047, 2047)), int16(rnd(r, -2047, 2047))
 	case "sparse":
 		for k := 1 + r.Intn(4); k > 0; k-- {
 			c[r.Intn(16)] = int16(rnd(r, -500, 500))
@@ -202,22 +203,37 @@ func genCoef(r *RNG, class string, c []int16) {
 		for i := range c {
 			c[i] = int16(rnd(r, -64, 64))
 		}
-	case "full-2048":
+	case "full-2047":
 		for i := range c {
-			c[i] = int16(rnd(r, -2048, 2048))
+			c[i] = int16(rnd(r, -2047, 2047))
 		}
 	case "extreme":
 		for i := range c {
-			c[i] = []int16{-2048, 2047, 2048, -2047, 0, 1, -1}[r.Intn(7)]
+			c[i] = []int16{-2047, 2047, 2046, -2046, 0, 1, -1}[r.Intn(7)]
+		}
+	case "sep-2047", "wide-2048":
+		// separable sign pattern at full magnitude: maximises the intermediates of the separable transforms
+		m := int16(2047)
+		if class == "wide-2048" {
+			m = 2048
+		}
+		rp, cp := r.Intn(16), r.Intn(16)
+		for y := 0; y < 4; y++ {
+			for x := 0; x < 4; x++ {
+				c[4*y+x] = m
+				if (rp>>y&1)^(cp>>x&1) != 0 {
+					c[4*y+x] = -m
+				}
+			}
 		}
 	case "sat":
-		c[0] = []int16{-2048, 2048, 2040, -2040}[r.Intn(4)]
+		c[0] = []int16{-2047, 2047, 2040, -2040}[r.Intn(4)]
 		for i := 1; i < 16; i++ {
 			c[i] = int16(rnd(r, -8, 8))
 		}
 	case "hi-dc":
-		c[0] = int16(rnd(r, 1500, 2048) * (1 - 2*r.Intn(2)))
-		c[1+r.Intn(15)] = int16(rnd(r, -2048, 2048))
+		c[0] = int16(rnd(r, 1500, 2047) * (1 - 2*r.Intn(2)))
+		c[1+r.Intn(15)] = int16(rnd(r, -2047, 2047))
 	case "wide-rand":
 		for i := range c {
 			c[i] = int16(r.Next())
@@ -839,18 +855,18 @@ func init() {
 			for k := range v.S[0] {
 				switch v.Class {
 				case "fdct-range":
-					v.S[0][k] = int16(rnd(r, -2048, 2048))
+					v.S[0][k] = int16(rnd(r, -2047, 2047))
 				case "small":
 					v.S[0][k] = int16(rnd(r, -acq, acq))
 				case "level-edge":
 					// around k*q ± q/2 where the level changes
 					v.S[0][k] = int16((rnd(r, 0, 8)*acq + acq/2 + rnd(r, -2, 2)) * (1 - 2*r.Intn(2)))
 				case "max-level":
-					v.S[0][k] = int16(rnd(r, 2040, 2048) * (1 - 2*r.Intn(2)))
+					v.S[0][k] = int16(rnd(r, 2040, 2047) * (1 - 2*r.Intn(2)))
 				case "wide-in":
 					v.S[0][k] = []int16{int16(r.Next()), -32768, 32767, -32767}[r.Intn(4)]
 				case "wide-params":
-					v.S[0][k] = int16(rnd(r, -2048, 2048))
+					v.S[0][k] = int16(rnd(r, -2047, 2047))
 				}
 			}
 			if v.Class == "wide-in" {
@@ -1000,6 +1016,9 @@ func kernelPaths() []kpath {
 	return ps
 }
 
+// kernelCasesBase is set by the suite entry points before any vector is generated.
+var kernelCasesBase = 420
+
 func kernelCases(tier string) int {
 	if tier == "thorough" {
 		return 4000
@@ -1007,11 +1026,31 @@ func kernelCases(tier string) int {
 	return 420
 }
 
+// casesFor: the random/corner cases of every kernel plus, for the quantiser, the sweep over all 128 matrices.
+func casesFor(k kentry, tier string) int {
+	if k.Sig == "quant" {
+		return kernelCases(tier) + quantSweepCount()
+	}
+	return kernelCases(tier)
+}
+
 func kvecFor(seed uint64, k kentry, i int) *kvec {
+	if k.Sig == "quant" && i >= kernelCasesBase {
+		return quantSweepVec(i - kernelCasesBase)
+	}
 	h := fnv1a([]byte(k.Name))
 	r := NewRNG(seed^h, uint64(i))
 	v := ksigs[k.Sig].gen(k.Name, r, i)
 	return v
+}
+
+// kdiffSignature: in-range inputs (|coeff| <= 2047, the decoder's filter thresholds, the encoder's own quantiser
+// parameters) are the C13 obligation; a difference that needs an input outside that range is listed apart.
+func kdiffSignature(k kentry, v *kvec, la, lb string) string {
+	if v.Dom == "wide" {
+		return "kernel-range:" + k.Name
+	}
+	return "kernel:" + k.Name + ":" + la + "-vs-" + lb
 }
 
 func kname(k kentry, v *kvec) string {
@@ -1023,7 +1062,7 @@ func kname(k kentry, v *kvec) string {
 
 // runKernelPaths returns, per kernel and per path, the digest of the whole output state of every case.
 func runKernelPaths(seed uint64, tier string, paths []kpath) (ks []kentry, dig map[string]map[string][]uint64, panics map[string]string) {
-	n := kernelCases(tier)
+	kernelCasesBase = kernelCases(tier)
 	dig = map[string]map[string][]uint64{}
 	panics = map[string]string{}
 	var mu sync.Mutex
@@ -1046,6 +1085,7 @@ func runKernelPaths(seed uint64, tier string, paths []kpath) (ks []kentry, dig m
 				if p.Cfg == "" {
 					fn = k.Go
 				}
+				n := casesFor(k, tier)
 				ds := make([]uint64, n)
 				for i := 0; i < n; i++ {
 					v := kvecFor(seed, k, i)
@@ -1078,7 +1118,7 @@ func runKernelPaths(seed uint64, tier string, paths []kpath) (ks []kentry, dig m
 }
 
 // firstDiff describes where two output states differ.
-func firstDiff(a, b *kout) string {
+func koutFirstDiff(a, b *kout) string {
 	for i := range a.B {
 		for j := range a.B[i] {
 			if j < len(b.B[i]) && a.B[i][j] != b.B[i][j] {
@@ -1139,6 +1179,22 @@ func kernelLevel(rep *Report) error {
 	}
 
 	tk := time.Now()
+	// the AVX2 switch must be what package lossy sees through dsp.HasAVX2() (its quantiser picks AVX2/SSE2 by it)
+	seen := map[string]bool{}
+	for _, p := range paths {
+		if p.Cfg != "" {
+			verifapi.DspSetConfig(p.Cfg)
+			seen[p.Label] = verifapi.DspHasAVX2Now()
+		}
+	}
+	verifapi.DspSetConfig("default")
+	rep.Extra["has_avx2_seen_by_lossy"] = seen
+	if arch == "amd64" && asm {
+		if v, ok := seen["sse2"]; ok && (v || verifapi.DspCPUHasAVX2() && !seen[paths[0].Label]) {
+			rep.Add(Finding{Kind: "correspondence", Property: "C13", Signature: "hook:avx2-switch-ineffective", Detail: fmt.Sprintf("dsp.HasAVX2() per configuration: %v", seen), Input: map[string]any{}})
+		}
+	}
+	asmAudit(rep)
 	ks, dig, panics := runKernelPaths(rep.Seed, rep.Tier, paths)
 	rep.Extra["t_kernel_paths_s"] = time.Since(tk).Seconds()
 	rep.Extra["kernel_paths"] = func() []string {
@@ -1154,7 +1210,11 @@ func kernelLevel(rep *Report) error {
 		rep.Add(Finding{Kind: "property", Property: "C13", Signature: "kernel:" + parts[0] + ":panic-" + parts[1], Detail: msg, Input: map[string]any{"kernel": parts[0], "path": parts[1]}})
 	}
 
-	n := kernelCases(rep.Tier)
+	// the range scan first: its one summary finding per kernel must not be crowded out by the per-vector ones
+	trs := time.Now()
+	rangeScan(rep, paths)
+	rep.Extra["t_range_scan_s"] = time.Since(trs).Seconds()
+
 	modelCap := 420
 	type kdiff struct {
 		k    kentry
@@ -1171,6 +1231,7 @@ func kernelLevel(rep *Report) error {
 		k := ks[ki]
 		sig := ksigs[k.Sig]
 		res := &results[ki]
+		n := casesFor(k, rep.Tier)
 		for i := 0; i < n; i++ {
 			v := kvecFor(rep.Seed, k, i)
 			rep.Eval(true, append([]byte(k.Name+"|"), v.key()...))
@@ -1185,7 +1246,7 @@ func kernelLevel(rep *Report) error {
 					}
 				}
 			}
-			if i < modelCap || rep.Tier == "thorough" && i%4 == 0 {
+			if i < modelCap || i >= kernelCasesBase && i%8 == 0 || rep.Tier == "thorough" && i%4 == 0 {
 				var o *kout
 				func() {
 					defer func() { recover() }()
@@ -1218,7 +1279,7 @@ func kernelLevel(rep *Report) error {
 		for _, d := range res.diffs {
 			v := kvecFor(rep.Seed, d.k, d.i)
 			la, lb := paths[d.a].Label, paths[d.b].Label
-			sigName := "kernel:" + kname(d.k, v) + ":" + la + "-vs-" + lb
+			sigName := kdiffSignature(d.k, v, la, lb)
 			rep.Count("kernel-diff/" + kname(d.k, v) + ":" + la + "-vs-" + lb)
 			detailed[sigName]++
 			if detailed[sigName] > 5 {
@@ -1228,7 +1289,7 @@ func kernelLevel(rep *Report) error {
 			in := v.input()
 			in["kernel"], in["case"], in["seed"] = d.k.Name, d.i, rep.Seed
 			rep.Add(Finding{Kind: "property", Property: "C13", Signature: sigName,
-				Detail: fmt.Sprintf("class %s: %s", v.Class, firstDiff(oa, ob)), Input: in})
+				Detail: fmt.Sprintf("%s vs %s, class %s: %s", la, lb, v.Class, koutFirstDiff(oa, ob)), Input: in})
 		}
 	}
 	verifapi.DspSetConfig("default")
